@@ -80,3 +80,12 @@ Theorem C14_hypotheses_nonvacuous :
   plain_flag f /\ plain_env (mkenv [(s "f", f)] [(s "sg", sg)]).
 Proof. exact plain_store_exists. Qed.
 Print Assumptions C14_hypotheses_nonvacuous.
+
+(* ---- the defect found in the unchanged repository, as a kernel-checked refutation of the original code ---- *)
+From LD Require Import Legacy.
+Theorem C14_legacy_refuted :
+  clause_time_legacy zero_clause 0 = Some zero_time_instant /\
+  clause_time_legacy (preprocess_clause (fun _ => true) zero_clause) 0 = None /\
+  clause_time (preprocess_clause (fun _ => true) zero_clause) 0 = Some zero_time_instant.
+Proof. exact Legacy.C14_legacy_refuted. Qed.
+Print Assumptions C14_legacy_refuted.
